@@ -75,6 +75,7 @@ type channel struct {
 	parentCtx       context.Context
 	streamCtx       context.Context
 	cancelStream    context.CancelFunc
+	streamUp        chan struct{} // closed (and replaced) when the stream has been re-created; protected by streamMut
 	responseRouters map[uint64]responseRouter
 	responseMut     sync.Mutex
 }
@@ -93,6 +94,7 @@ func newChannel(n *RawNode) *channel {
 		latency:         -1 * time.Second,
 		rand:            rand.New(rand.NewSource(time.Now().UnixNano())),
 		responseRouters: make(map[uint64]responseRouter),
+		streamUp:        make(chan struct{}),
 	}
 	// parentCtx controls the channel and is used to shut it down
 	c.parentCtx = n.newContext()
@@ -420,12 +422,16 @@ func (c *channel) reconnect(maxRetries float64) {
 		if err == nil {
 			c.gorumsStream = stream
 			c.streamBroken.clear()
+			// release the goroutines that are waiting out a backoff delay below
+			close(c.streamUp)
+			c.streamUp = make(chan struct{})
 			c.streamMut.Unlock()
 			// every stream gets its own receiver goroutine
 			go c.receiver(stream)
 			return
 		}
 		c.cancelStream()
+		streamUp := c.streamUp
 		c.streamMut.Unlock()
 		c.setLastErr(err)
 		if retries >= maxRetries && maxRetries > 0 {
@@ -444,6 +450,9 @@ func (c *channel) reconnect(maxRetries float64) {
 		select {
 		case <-time.After(time.Duration(delay)):
 			retries++
+		case <-streamUp:
+			// somebody else has re-created the stream; the check at the top of the loop returns,
+			// so that no goroutine of a replaced stream lingers for the rest of its backoff delay.
 		case <-c.parentCtx.Done():
 			return
 		}
